@@ -92,6 +92,23 @@ def run_case(case):
 
 def check(rec, case, ds, truth):
     fp = "C10/ugrid"
+    snapshot = ds.copy(deep=True)
+    check_once(rec, case, ds, truth, fp)
+    # normalising the topology must not write through to the dataset: the same dataset, looked at again
+    # through a fresh convention object (and through a copy), must give the same topology
+    rec.check(ds.identical(snapshot), f"{fp}/dataset-modified", "reading the topology modified the dataset", 'unchanged', 'changed')
+    from emsarray.conventions.ugrid import Mesh2DTopology
+    for label, other in (('second helper', ds), ('shallow copy', ds.copy())):
+        try:
+            again = masked_rows(lib(lambda: Mesh2DTopology(other).face_node_array))
+            rec.check(again == pad(truth.faces, truth.width), f"{fp}/second-look-differs",
+                      f"face_node_array seen through a {label} after the first use", pad(truth.faces, truth.width)[:3], again[:3])
+        except LibraryRaised as err:
+            rec.check(False, f"{fp}/second-look-differs", f"{label} raised", 'array', str(err))
+    return rec.result()
+
+
+def check_once(rec, case, ds, truth, fp):
     from emsarray.conventions.ugrid import NoEdgeDimensionException
     try:
         convention = lib(lambda: ds.ems)
